@@ -120,6 +120,37 @@ def run(project, chk):
         chk.check(colour is not None and norm_text(colour) == "self.original", "W2", parse.short, norm_text(c), project.loc(parse.module, c), "the colour parsed is the constructor's input", how="first argument is self.original",
                   message="the colour parsed is not the constructor's input")
 
+    # ---------------------------------------------------------------- W5: the composite is what the optimiser is given
+    chk.rule("W5", "ColorPair.make_readable hands the optimiser the composited colours (self.text.rgb / ._rgb and self.bg.rgb / ._rgb), not the raw inputs (which would be re-composited over white)")
+    mr = project.func(f"{COLORS}.ColorPair.make_readable")
+    chk.saw_function(mr)
+    morg = Origins(project, mr)
+    msc = Scope(project, mr)
+    CAFQ = "cm_colors.core.optimisation.check_and_fix_contrast"
+    caf_calls = [c for c in own_nodes(mr.node) if isinstance(c, ast.Call) and msc.resolve_call(c) == CAFQ]
+    chk.floor("optimiser calls in make_readable", len(caf_calls), 1)
+    for c in caf_calls:
+        b = bind_args(project.func(CAFQ), c)
+        for pname, side in (("text", "text"), ("bg", "bg")):
+            a = b.get(pname)
+            o = morg.at(a) if a is not None else ("const", None)
+            ok = o[0] == "attr" and o[2] in ("rgb", "_rgb") and o[1] == ("attr", ("param", "self"), side)
+            chk.check(ok, "W5", mr.short, norm_text(c)[:100], project.loc(mr.module, c), f"the optimiser's `{pname}` is self.{side}.rgb: the colour as composited over this pair's background",
+                      how=f"origin: {oshow(o)[:80]}", message=f"the optimiser is given {oshow(o)[:80]} as `{pname}` instead of self.{side}.rgb: translucent text is re-composited over white for the fix while the verdict uses the pair's background")
+
+    # ---------------------------------------------------------------- W6: compositing has no memory
+    chk.rule("W6", "parse_color_to_rgb and everything it calls keep no module-level state (a parse cache that forgets the background hands one pair's composite to the next)")
+    from sa.effects import Effects as _Eff
+    _eff = _Eff(project)
+    pentry = f"{PAR}.parse_color_to_rgb"
+    pclosure = _eff.reach(pentry) | {pentry}
+    dirty = [(q, d, n) for q in sorted(pclosure) if q in _eff.sum for (d, n) in _eff.sum[q].module_writes]
+    for q, d, n in dirty:
+        f2 = project.funcs[q]
+        chk.fail("W6", f2.short, norm_text(n), project.loc(f2.module, n), f"the parser's call closure writes module-level state {d}: the composite of a translucent colour can come from an earlier call with another background")
+    if not dirty:
+        chk.ok("W6", f"{project.loc(project.func(pentry).module, project.func(pentry).node)} core.color_parser.parse_color_to_rgb", f"the {len(pclosure)} functions in the parser's call closure write no module-level state", "effect summaries closed over the call graph")
+
     # ---------------------------------------------------------------- W3
     n_sites = 0
     for q, bgparam, targets in ((f"{PAR}.parse_color_to_rgb", "background", {f"{CONV}.rgba_to_rgb": "background", f"{CONV}.hsla_to_rgb": "background"}),):
